@@ -902,6 +902,16 @@ func c10r4(p *Prog, r *Reporter) {
 						if !ok || !holds {
 							return false
 						}
+						// a boolean helper that answers true only where the flag of its argument is known true
+						if c := callOf(atom); c != nil {
+							if g := c.Common().StaticCallee(); g != nil && p.isArche(g) {
+								for j, a := range c.Common().Args {
+									if apath(a) == base && trueImpliesFlag(g, j, pr.owner, pr.flag) {
+										return true
+									}
+								}
+							}
+						}
 						o, f, bs, ok := loadedField(atom)
 						return ok && o == pr.owner && f == pr.flag && bs == base
 					},
@@ -932,6 +942,11 @@ func c10r4(p *Prog, r *Reporter) {
 				mf.Run()
 				if mf.Before(fa) {
 					r.OK(name, construct, p.Pos(fa.Pos()), "the value is "+needFlag+" where the flag "+pr.flag+" of the same base is known true")
+				} else if !pathWithoutFact(fn, fa, func(atom ssa.Value) bool {
+					o, f, bs, ok := loadedField(atom)
+					return ok && o == pr.owner && f == pr.flag && bs == base
+				}) {
+					r.OK(name, construct, p.Pos(fa.Pos()), "the value is "+needFlag+" only on paths on which the flag "+pr.flag+" of the same base was tested true (branch conditions decided consistently along each path)")
 				} else {
 					r.Bad(name, construct, p.Pos(fa.Pos()), "the value half of the option pair is "+needFlag+" without its flag "+pr.flag+" being known true (the zero ID is a valid component id)")
 				}
@@ -1101,4 +1116,40 @@ func assertsFlag(p *Prog, g *ssa.Function, j int, owner, flag string) bool {
 	}}
 	mf.Run()
 	return mf.AtAllReturns()
+}
+
+// trueImpliesFlag: g returns a single bool, every return hands out a constant, and the constant true is returned only
+// where the flag field of parameter j is known true.
+func trueImpliesFlag(g *ssa.Function, j int, owner, flag string) bool {
+	if g.Blocks == nil || j >= len(g.Params) || g.Signature.Results().Len() != 1 {
+		return false
+	}
+	base := g.Params[j].Name()
+	mf := &MustFlow{Fn: g, EdgeGen: func(x *ssa.BasicBlock, k int) bool {
+		atom, holds, ok := edgeCond(x, k)
+		if !ok || !holds {
+			return false
+		}
+		o, f, bs, ok := loadedField(atom)
+		return ok && o == owner && f == flag && bs == base
+	}}
+	mf.Run()
+	sawTrue := false
+	for _, b := range g.Blocks {
+		ret, ok := b.Instrs[len(b.Instrs)-1].(*ssa.Return)
+		if !ok {
+			continue
+		}
+		cb, isC := constBool(ret.Results[0])
+		if !isC {
+			return false
+		}
+		if cb {
+			sawTrue = true
+			if !mf.Before(ret) {
+				return false
+			}
+		}
+	}
+	return sawTrue
 }
